@@ -124,7 +124,7 @@ func runCLIMode(ctx context.Context, c *Case, m Mode, hcl bool, root string) (re
 	if inTx {
 		fkState = false
 	}
-	res.TieCase, res.TieSkip = tieCase(ctx, before, cur, changes, fkState, inTx)
+	res.TieCase, res.TieSkip = tieCase(ctx, before, cur, changes, fkState, inTx, -1)
 	r := clirun.Run(dir, nil, args...)
 	var applyErr error
 	if r.Exit != 0 {
@@ -236,9 +236,9 @@ func runCLI(ctx context.Context, w *out.W, tier, tmp, outDir, only string) {
 			defer func() { <-sem }()
 			cr := caseResult{c: c}
 			fixedCase := c.ID[0] == 'w'
-			ms := []Mode{{"file", true, "file"}, {"file", true, "none"}}
+			ms := []Mode{{Store: "file", FK: true, Tx: "file"}, {Store: "file", FK: true, Tx: "none"}}
 			if fixedCase || i%3 == 0 {
-				ms = append(ms, Mode{"file", false, "file"}, Mode{"file", false, "none"})
+				ms = append(ms, Mode{Store: "file", FK: false, Tx: "file"}, Mode{Store: "file", FK: false, Tx: "none"})
 			}
 			for k, m := range ms {
 				cr.runs = append(cr.runs, runCLIMode(ctx, c, m, (i+k)%2 == 0, tmp))
